@@ -4,7 +4,8 @@ from dataclasses import dataclass
 from .stmt import (
     Stmt, IfBlock, VarDeclClause, ArrayDimRange, CallStmt,
     ReturnValueSetStmt, FunctionBlock, SubBlock, SimpleCaseClause,
-    RangeCaseClause, CompareCaseClause, CaseElseStmt,
+    RangeCaseClause, CompareCaseClause, CaseElseStmt, CaseStmt,
+    SelectBlock, Block, ElseStmt, ElseIfStmt, DimStmt, TypeBlock,
 )
 from .expr import Type, Expr, Lvalue, NumericLiteral, FuncCall
 from .program import Label, LineNo
@@ -132,6 +133,11 @@ class CompilationUnit(EvaluationContext):
 class CompilePass:
     def __init__(self, compilation):
         self.compilation = compilation
+        self._block_delimiters = tuple(
+            stmt_type
+            for block_type in Block.known_blocks.values()
+            for stmt_type in (block_type.start_stmt, block_type.end_stmt)
+        )
 
         self._check_compile_methods()
 
@@ -177,6 +183,15 @@ class CompilePass:
         # are deduced from node type names. For example, for the
         # ExitSubStmt nodes we call the `process_exit_sub_pre` and
         # `process_exit_sub_post` functions.
+
+        if isinstance(tree, self._block_delimiters):
+            # block start/end statements are consumed when blocks are
+            # built; one that is still in the tree (for example inside
+            # a single-line IF) has no block to belong to
+            raise CompileError(
+                EC.BLOCK_MISMATCH,
+                f'{tree.node_name()} is not allowed here',
+                node=tree)
 
         # call pre-children compile functions for this pass
         func = self.get_node_compile_func(tree, 'pre')
@@ -395,17 +410,41 @@ class Pass1(CompilePass):
         self.compilation.user_types[node.name] = node
 
     def process_else_if_pre(self, node):
-        if not any(isinstance(p, IfBlock) for p in node.parents()):
-            raise CompileError(
-                EC.ELSE_WITHOUT_IF,
-                'ELSEIF outside IF block',
-                node=node)
+        # the ELSEIF and ELSE statements of an IF block are taken out of
+        # its body when the block is built; one that is still there is
+        # not directly inside an IF block
+        raise CompileError(
+            EC.ELSE_WITHOUT_IF,
+            'ELSEIF outside IF block',
+            node=node)
 
     def process_else_pre(self, node):
-        if not any(isinstance(p, IfBlock) for p in node.parents()):
+        raise CompileError(
+            EC.ELSE_WITHOUT_IF,
+            'ELSE outside IF block',
+            node=node)
+
+    def process_case_pre(self, node):
+        if not isinstance(node.parent, SelectBlock):
             raise CompileError(
-                EC.ELSE_WITHOUT_IF,
-                'ELSE outside IF block',
+                EC.BLOCK_MISMATCH,
+                'CASE outside SELECT CASE block',
+                node=node)
+
+    def process_case_else_pre(self, node):
+        if not isinstance(node.parent, SelectBlock):
+            raise CompileError(
+                EC.BLOCK_MISMATCH,
+                'CASE ELSE outside SELECT CASE block',
+                node=node)
+
+    def process_var_clause_pre(self, node):
+        if not isinstance(node.parent,
+                          (DimStmt, TypeBlock, SubBlock, FunctionBlock)):
+            # "name AS type" is only a statement inside a TYPE block
+            raise CompileError(
+                EC.ILLEGAL_IN_TYPE_BLOCK,
+                'Field declaration outside TYPE block',
                 node=node)
 
     def process_data_pre(self, node):
